@@ -78,6 +78,17 @@ def eval_bool(e: ast.AST, L: int, fn: ast.FunctionDef, depth: int = 0) -> Option
     return None
 
 
+def enclosing_loop(n: ast.AST, fn: ast.AST) -> bool:
+    from .core import parent as _p
+
+    q = _p(n)
+    while q is not None and q is not fn:
+        if isinstance(q, (ast.For, ast.While, ast.ListComp, ast.GeneratorExp)):
+            return True
+        q = _p(q)
+    return False
+
+
 def _assigned_values(name: str, fn: ast.FunctionDef, L: Optional[int] = None, depth: int = 0) -> List[ast.AST]:
     """Values assigned to `name` in fn.  With L given, assignments sitting under conditions that
     fold to false for len(p) == L are left out (if len(p) == 6: i = 2 else: i = 3)."""
@@ -1184,6 +1195,62 @@ def b4(repo: Repo) -> RuleResult:
     if words != {"true", "false", "yes", "no"}:
         res.bad(Finding("B4", LEXER, 0, "Lexer.t_BOOL_LITERAL", rx, f"boolean literal words are {sorted(words)}, documented: true/false/yes/no", tag="bool-words"))
 
+    # the unescape procedure: one left-to-right scan in which a backslash consumes exactly the character after it
+    try:
+        from .normal import V as _Ve
+        from .normal import show as _she
+        from .pyflow import PyFlow as _PFe
+        from .pymodel import get_model as _gme
+
+        lm_e = _gme(repo).mod("bitproto/lexer.py")
+        lc_e = lm_e.classes["Lexer"]
+        fn_e = lc_e.methods["t_STRING_LITERAL"].node
+        consts_e = dict(lm_e.assigns)
+        consts_e.update(lc_e.attrs_val)
+        # sequential replacement passes do not respect escape boundaries ("\\\\t" is a backslash and a t)
+        passes = [c_ for c_ in ast.walk(fn_e) if isinstance(c_, ast.Call) and isinstance(c_.func, ast.Attribute) and c_.func.attr in ("replace", "sub", "translate")]
+        in_loop = [c_ for c_ in passes if enclosing_loop(c_, fn_e)]
+        if in_loop or len(passes) > 1:
+            res.bad(Finding("B4", LEXER, (in_loop or passes)[0].lineno, "Lexer.t_STRING_LITERAL", src_of((in_loop or passes)[0]), "escape sequences are decoded by successive replacement passes over the whole text: a pass can pair the second half of one escape with the character after it (an escaped backslash followed by t, r, n or a quote)", witness='const S = "C:\\\\temp"  ->  C:\\<TAB>emp', tag="escapes:passes"))
+        else:
+            prm_e = [a_.arg for a_ in fn_e.args.args]
+            tops_e = _PFe(funcs={}, methods={}, consts=consts_e, havoc_on=()).run(fn_e, {prm_e[0]: _Ve("self"), prm_e[1]: _Ve("t")})
+            loops_e = [e for p_ in tops_e for e in p_.effects if e.kind == "loop" and e.name == "while"]
+            shape_ok = False
+            why_e = "no scanning loop found"
+            if loops_e:
+                lp_e = loops_e[0]
+                tag_e = lp_e.op
+                seen_e = {"escape": False, "reject": False, "plain": False}
+                why_e = ""
+                for sp in lp_e.sub or []:
+                    lits = {(k_[0], tuple(_she(x) if hasattr(x, "terms") else str(x) for x in k_[1:])): t_ for k_, t_ in sp.guards}
+                    bs = next((t_ for (kind, a_), t_ in lits.items() if kind == "eq" and len(a_) == 2 and a_[1] in ("'\\\\'", "\\")), None)
+                    known = next((t_ for (kind, a_), t_ in lits.items() if kind == "contains" and "escaping_chars" in a_[0]), None)
+                    if known is None:
+                        # table.get(c) is None  /  table.get(c) (truthy)
+                        got_ = next((t_ for (kind, a_), t_ in lits.items() if kind == "isnone" and "escaping_chars.get(" in a_[0]), None)
+                        if got_ is not None:
+                            known = not got_
+                    adv = (sp.env.get("i") - _Ve("i" + tag_e)).const_value() if sp.env.get("i") is not None else None
+                    if bs is True and known is True:
+                        seen_e["escape"] = sp.done is None and adv == 2
+                        if adv != 2:
+                            why_e = f"an escape advances the scan by {adv} characters, not 2"
+                    elif bs is True and known is False:
+                        seen_e["reject"] = sp.done == "raise"
+                    elif bs is False:
+                        seen_e["plain"] = sp.done is None and adv == 1
+                        if adv != 1:
+                            why_e = f"a plain character advances the scan by {adv}"
+                shape_ok = all(seen_e.values())
+                if not shape_ok and not why_e:
+                    why_e = f"cases seen: {seen_e}"
+            res.inst(part="escapes", scan=shape_ok, detail=why_e)
+            if not shape_ok:
+                res.unsure(f"B4: t_STRING_LITERAL: the unescape loop is not the recognised single scan ({why_e})")
+    except (Inconclusive, KeyError) as e:
+        res.unsure(f"B4: t_STRING_LITERAL: {e}")
     res.inst(part="escapes", table=g.escaping_chars)
     if g.escaping_chars != DOCUMENTED_ESCAPES:
         res.bad(Finding("B4", LEXER, 0, "Lexer.escaping_chars", repr(g.escaping_chars), "escape table differs from the documented escapes (\\t \\r \\n \\\\ \\' \\\")", witness='const S = "a\\tb"', tag="escapes"))
@@ -1408,6 +1475,73 @@ def b5(repo: Repo) -> RuleResult:
             else:
                 d = sorted(got)[0]
                 res.bad(Finding("B5", PARSER, fn.lineno, "Parser.p_import", str(sorted(got)), f"for `{lhs} : {' '.join(alt)}` the proto is pushed under `{d}`, expected `{want}`", witness='import lib "lib.bitproto"  then  lib.Type', tag=f"import-name:{L}"))
+
+    # (g) no scope class rewrites the dotted path on its way to the member tables
+    try:
+        from .flows import compiler_flow as _cfg
+        from .normal import V as _Vg
+        from .pymodel import get_model as _gmg
+
+        mg_ = _gmg(repo)
+        scope_c = mg_.cls("Scope", "_ast.py")
+        n_over = 0
+        for c_ in mg_.all_classes():
+            if not c_.rel.endswith("_ast.py") or c_ is scope_c or not mg_.is_subclass(c_, scope_c) or "get_member" not in c_.methods:
+                continue
+            n_over += 1
+            fo_ = c_.methods["get_member"]
+            va = fo_.node.args.vararg.arg if fo_.node.args.vararg is not None else None
+            env_g = {fo_.node.args.args[0].arg: _Vg("self")}
+            if va:
+                env_g[va] = _Vg("names")
+            flg = _cfg(repo, c_.name, "_ast.py", inline=lambda n_, f_: False)
+            for p_ in flg.run(fo_.node, env_g):
+                if p_.done != "return" or p_.ret is None:
+                    continue
+                r_ = show(p_.ret)
+                res.inst(part="lookup", override=fo_.qual, returns=r_)
+                if r_ == "None":
+                    continue
+                if r_ not in ("super().get_member(__star__(names))", "self.members.get(names[0])"):
+                    res.bad(Finding("B5", fo_.rel, fo_.node.lineno, fo_.qual, r_, f"{c_.name} overrides get_member and looks up `{r_}` (path under {p_.guard_text()}): the dotted path a schema wrote is rewritten before the member tables are asked, so a name can denote another definition than the one the scope rules give", witness="import sensor \"v1.bitproto\" inside `proto sensor`: sensor.Reading denotes the importer's own Reading", tag=f"{fo_.qual}:path-rewritten"))
+        res.inst(part="lookup", get_member_overrides=n_over)
+    except Inconclusive as e:
+        res.unsure(f"B5: get_member overrides: {e}")
+
+    # (f) what file an import statement denotes: the path as written when absolute, otherwise relative to
+    # the directory of the importing file (the working directory only when a string is parsed)
+    try:
+        from .flows import compiler_flow as _cff
+        from .normal import V as _Vf
+        from .pymodel import get_model as _gmf
+
+        mf_ = _gmf(repo)
+        gf = mf_.func("parser.py", "Parser._get_child_filepath")
+        prm_f = [a_.arg for a_ in gf.node.args.args]
+        flf = _cff(repo, "Parser", "parser.py", inline=lambda n_, f_: n_.startswith("_") and n_ != "_get_child_filepath")
+        ACCEPT = {
+            "IMP": "absolute path as written",
+            "os.path.join(os.path.dirname(self.current_filepath()), IMP)": "relative to the importing file",
+            "os.path.join(os.getcwd(), IMP)": "relative to the working directory (string input)",
+        }
+        n_ret = 0
+        for p_ in flf.run(gf.node, {prm_f[0]: _Vf("self"), prm_f[1]: _Vf("IMP")}):
+            if p_.done != "return" or p_.ret is None:
+                continue
+            n_ret += 1
+            r_ = show(p_.ret)
+            gt = p_.guard_text()
+            res.inst(part="import-path", returns=r_, under=gt)
+            if r_ not in ACCEPT:
+                res.bad(Finding("B5", gf.rel, gf.node.lineno, gf.qual, r_, f"an import can resolve to `{r_}` (path under {gt}): an imported file is the path as written when absolute, otherwise the file of that relative name next to the importing file - a like-named file elsewhere (next to the entry file, in the working directory) is another file with other definitions", witness="drivers/motor.bitproto imports \"common.bitproto\" while another common.bitproto lies next to the entry file", tag="import-path"))
+            elif r_ == "IMP" and not any("isabs(IMP)" in g_ and not g_.startswith("not(") for g_ in gt):
+                res.bad(Finding("B5", gf.rel, gf.node.lineno, gf.qual, r_, f"the path is used as written on a path that has not established that it is absolute ({gt}): it is then relative to the working directory", tag="import-path:as-written"))
+            elif "getcwd" in r_ and not any(g_ == "not(self.current_filepath())" for g_ in gt):
+                res.bad(Finding("B5", gf.rel, gf.node.lineno, gf.qual, r_, f"the working directory is used although a file is being parsed ({gt})", tag="import-path:cwd"))
+        if n_ret == 0:
+            res.unsure("B5: Parser._get_child_filepath returns nothing")
+    except Inconclusive as e:
+        res.unsure(f"B5: import path: {e}")
 
     # (e) the reverse lookup the generators qualify imported definitions with: a name is
     # returned only for the entry that IS the member (same object), never for a like-named one
